@@ -2,7 +2,7 @@
 from harness import kprops, koracle, kbridge
 from harness.kbridge import EXTRA_MODULES, TRUSTED_EXTRA, prepare
 ASSUMPTIONS = ['condition trees of depth <= 3 over timeouts, shared events and processes; one environment (the mixed-environment refusal is checked by a direct call)']
-SPEC = [(8, 'cond'), (3, 'chain'), (1, 'outcome'), (1, 'plan:cond'), (1, 'plan:chain')]
+SPEC = [(8, 'cond'), (3, 'chain'), (2, 'decided'), (1, 'outcome'), (1, 'plan:cond'), (1, 'plan:chain')]
 def run(ctx):
     res = kprops.run_kernel(ctx, 'C05', SPEC, 2000, 60000, oracles=[kprops.oracle_time_monotone, koracle.oracle_c05],
                             nontrivial=lambda c, lines: any(' got cv[' in l for l in lines),
